@@ -1,4 +1,5 @@
-WEAVE = [dict(file='include/lockfree_ring_buffer.h', parse='test/test_lockfree_ring_buffer.c', fns=['lockfree_ring_buffer_trypush', 'lockfree_ring_buffer_trypop'])]
+WEAVE = [dict(file='include/lockfree_ring_buffer.h', parse='test/test_lockfree_ring_buffer.c', fns=['lockfree_ring_buffer_trypush', 'lockfree_ring_buffer_trypop', 'lockfree_ring_buffer_push', 'lockfree_ring_buffer_pop'],
+              stub_calls={'lockfree_ring_buffer_push': ['lockfree_ring_buffer_trypush'], 'lockfree_ring_buffer_pop': ['lockfree_ring_buffer_trypop']})]
 def G(name, harness, fn, p, thorough):
     return dict(name='%s_cap2to%d' % (name, 1 << p), tu='ring.c', harness=harness, mode='H', functions=[fn], defs=['-DPMAX=%d' % p],
                 timeout=900, thorough_only=thorough, bounded=True, bound_note='capacity 2^1..2^%d (symbolic within that range); all 2^62 index values, wrap of index & mask included' % p)
@@ -7,11 +8,13 @@ GROUPS = [
     G('trypop', 'h_trypop', 'lockfree_ring_buffer_trypop', 4, False),
     G('trypush', 'h_trypush', 'lockfree_ring_buffer_trypush', 6, True),
     G('trypop', 'h_trypop', 'lockfree_ring_buffer_trypop', 6, True),
+    dict(name='push_wrapper', tu='ring.c', harness='h_push_wrapper', mode='H', functions=['lockfree_ring_buffer_push'], unwind=5, bounded=True, bound='the attempt that succeeds is one of the first four'),
+    dict(name='pop_wrapper', tu='ring.c', harness='h_pop_wrapper', mode='H', functions=['lockfree_ring_buffer_pop'], unwind=5, bounded=True, bound='the attempt that succeeds is one of the first four'),
     dict(name='create', tu='ring.c', harness='h_create', mode='H', functions=['lockfree_ring_buffer_create'], unwind=2, exact_unwind=True),
     dict(name='lemmas', tu='lemmas.c', kind='lemmas', harness='', no_native='pure lemma', timeout=600),
 ]
 ASSUMPTIONS = ['A6 the 64-bit indices do not wrap (high < 2^62)', 'values pushed are non-NULL (documented precondition of trypush)',
                'capacity: the refinement proofs run with a symbolic capacity 2^1..2^4 (quick) / 2^1..2^6 (thorough) over a fixed backing store - larger capacities only change `size` and the mask, but are not covered by the proof (CBMC array post-processing blows up on a symbolic-size object)',
-               'the blocking wrappers lockfree_ring_buffer_push/pop are retry loops around trypush/trypop and add no shared writes of their own (not separately proved)']
+               'the blocking wrappers lockfree_ring_buffer_push/pop: proved to be retry loops around trypush/trypop (by contract) that add no shared writes of their own and stop at the first success (bounded: success within four attempts); their termination is not proved']
 # the property's second anchor (src/fiber_manager.c) is the mpmc node pool built on this ring buffer: its group lives with the woven fiber_manager.c in C01
 IMPORTS = [dict(prop='C01', groups=['node_pool'])]
